@@ -23,12 +23,17 @@ def new_state():
     return {'rules': [], 'transforms': [], 'loaded': None}
 
 
-def do_load(state, path, mode):
+def do_load(state, path, mode, order='rules_first'):
+    """A load as the commands perform it: cmd_run/explain/discover call get_transforms BEFORE get_all_rules ('transforms_first')."""
     from tally.merchant_utils import get_all_rules, get_transforms
-    state['loaded'] = [path, mode]
+    state['loaded'] = [path, mode, order]
     try:
-        state['rules'] = get_all_rules(path, match_mode=mode)
-        state['transforms'] = get_transforms(path, match_mode=mode)
+        if order == 'transforms_first':
+            state['transforms'] = get_transforms(path, match_mode=mode)
+            state['rules'] = get_all_rules(path, match_mode=mode)
+        else:
+            state['rules'] = get_all_rules(path, match_mode=mode)
+            state['transforms'] = get_transforms(path, match_mode=mode)
         return {'ok': True, 'n': len(state['rules'])}
     except Exception as e:
         state['rules'], state['transforms'] = [], []
